@@ -6,6 +6,7 @@
 use std::time::{Duration, Instant};
 
 mod c01;
+mod c03;
 mod c05;
 mod c10;
 mod c12;
@@ -23,6 +24,9 @@ fn main() {
         "pos_allow" => c05::pos_allow(rest),
         "rl_window" => c05::rl_window(rest),
         "style_build" => c14::style_build(rest),
+        "c03_clear_overshoot" => c03::c03_clear_overshoot(rest),
+        "c03_text_below_zombies" => c03::c03_text_below_zombies(rest),
+        "c03_skip_recount" => c03::c03_skip_recount(rest),
         "first_line_hazard" => c01::first_line_hazard(rest),
         "cr_hazard" => c01::cr_hazard(rest),
         "pad_field" => c12::pad_field(rest),
